@@ -5,8 +5,10 @@ import SlugModel.Lemmas.UnpackInv
 Property theorems only; helper lemmas live in `Lemmas/PathSegs` (string ↔ component bridge),
 `Lemmas/Resolve` (where kernel path resolution lands), `Lemmas/FSFrame` (what each system call
 changes) and `Lemmas/UnpackInv` (the invariant over `Unpack`).  `unpack`, `unpackEntry`,
-`newUnpackInfo`, `validSymlink` are the model of `Packer.Unpack`, `unpackinfo.NewUnpackInfo` and
-`validSymlink` (tied to the code by the `unpack` lane); `FS`, `resolve` the model of the kernel.
+`newUnpackInfo`, `validSymlink`, `unpackLinkOK` are the model of `Packer.Unpack`,
+`unpackinfo.NewUnpackInfo`, `validSymlink` and the link test `Unpack` applies (`validSymlink`, and an
+absolute target only when allow-listed) (tied to the code by the `unpack` lane); `FS`, `resolve` the
+model of the kernel.
 
 Vocabulary (`dstP = pathSegs dst`, the physical components of `dst`):
 * `DstOK dst` — `dst` is absolute, clean and not `/`.
@@ -24,6 +26,14 @@ Vocabulary (`dstP = pathSegs dst`, the physical components of `dst`):
 `_partial`: the theorems assume `TidyLinks es`.  Without it the unchanged code is not safe
 (`C04_cex_dotdot_after_link`): `validSymlink` compares the *lexical* join with `dst`, and a `..`
 that follows a name which is a link climbs from the link's referent, not from the name.
+
+Absolute targets (former finding F12 "unpack.link-abs-inside", repaired): `Unpack` used to accept an
+absolute target that pointed inside `dst`; it now refuses every absolute target that is not
+allow-listed (§3b: `C04_abs_target_refused`, `C04_accepted_target_relative`,
+`C04_abs_target_needs_allow`, `C04_unpack_ok_links_relative`).  No theorem of this file ever
+excluded absolute targets by hypothesis (`GoodLink`/`Safe` treat them: the walk starts at `/`), so
+there is no hypothesis to drop; what is new is that with `allow = []` every link `Unpack` creates
+has a relative target (`C04_created_link_relative`).
 -/
 namespace Slug
 
@@ -99,6 +109,26 @@ theorem C04_safe_after_unpack_partial (dst : Str) (fs : FS) (es : List Entry)
 
 /-! ## 3. decision logic of the link check -/
 
+/-- **C04_reject_linkOK.** A symlink entry whose target fails the link test of `Unpack`
+(`unpackLinkOK`) makes the step return an illegal-slug error, and no link is created: the
+filesystem is the one `MkdirAll` of the parent directory left.  (Any allow-list.) -/
+theorem C04_reject_linkOK (cwd : Str) (allow : List Str) (priv : Bool) (dst : Str) (st : UState) (e : Entry)
+    (body : Str) (be : Bool) (path ln : Str) (fs1 : FS)
+    (hn : e.name ≠ []) (hi : newUnpackInfo st.fs dst e = some path)
+    (hm : st.fs.mkdirAll nowT (mkdirAllFuel (pathDir path)) (pathDir path) 0o755 = (fs1, none))
+    (hs : e.isSymlink = true) (hrel : pathRel dst path = some ln)
+    (hv : unpackLinkOK cwd allow dst ln e.link = false) :
+    unpackEntry cwd allow priv dst st e body be = ({ fs := fs1, dirs := st.dirs }, some .illegal) := by
+  unfold unpackEntry
+  simp [hn, hi, hm, hs, hrel, hv]
+
+/-- what `validSymlink` refuses, the link test refuses -/
+theorem C04_linkOK_false_of_validSymlink_false {cwd : Str} {allow : List Str} {dst ln t : Str}
+    (hv : validSymlink cwd allow dst ln t = false) : unpackLinkOK cwd allow dst ln t = false := by
+  cases h : unpackLinkOK cwd allow dst ln t with
+  | false => rfl
+  | true => rw [unpackLinkOK_valid h] at hv; cases hv
+
 /-- **C04_reject.** A symlink entry whose target `validSymlink` refuses makes the step return an
 illegal-slug error, and no link is created: the filesystem is the one `MkdirAll` of the parent
 directory left.  (Any allow-list.) -/
@@ -108,9 +138,24 @@ theorem C04_reject (cwd : Str) (allow : List Str) (priv : Bool) (dst : Str) (st 
     (hm : st.fs.mkdirAll nowT (mkdirAllFuel (pathDir path)) (pathDir path) 0o755 = (fs1, none))
     (hs : e.isSymlink = true) (hrel : pathRel dst path = some ln)
     (hv : validSymlink cwd allow dst ln e.link = false) :
-    unpackEntry cwd allow priv dst st e body be = ({ fs := fs1, dirs := st.dirs }, some .illegal) := by
-  unfold unpackEntry
-  simp [hn, hi, hm, hs, hrel, hv]
+    unpackEntry cwd allow priv dst st e body be = ({ fs := fs1, dirs := st.dirs }, some .illegal) :=
+  C04_reject_linkOK cwd allow priv dst st e body be path ln fs1 hn hi hm hs hrel
+    (C04_linkOK_false_of_validSymlink_false hv)
+
+/-- the run stops there: `Unpack` of an archive whose first entry fails the link test returns
+illegal -/
+theorem C04_reject_unpack_linkOK (cwd : Str) (allow : List Str) (priv : Bool) (dst : Str) (fs : FS) (e : Entry)
+    (rest : List Entry) (path ln : Str) (fs1 : FS)
+    (hn : e.name ≠ []) (hi : newUnpackInfo fs dst e = some path)
+    (hm : fs.mkdirAll nowT (mkdirAllFuel (pathDir path)) (pathDir path) 0o755 = (fs1, none))
+    (hs : e.isSymlink = true) (hrel : pathRel dst path = some ln)
+    (hv : unpackLinkOK cwd allow dst ln e.link = false) :
+    unpack cwd allow priv dst .none fs (e :: rest) = (fs1, .illegal) := by
+  have h := C04_reject_linkOK cwd allow priv dst { fs := fs, dirs := [] } e e.body false path ln fs1 hn hi hm hs hrel hv
+  unfold unpack
+  rw [unpackLoop]
+  · simp [h]
+  · intro k n h; cases h
 
 /-- the run stops there: `Unpack` of an archive whose first entry is refused returns illegal -/
 theorem C04_reject_unpack (cwd : Str) (allow : List Str) (priv : Bool) (dst : Str) (fs : FS) (e : Entry)
@@ -119,12 +164,9 @@ theorem C04_reject_unpack (cwd : Str) (allow : List Str) (priv : Bool) (dst : St
     (hm : fs.mkdirAll nowT (mkdirAllFuel (pathDir path)) (pathDir path) 0o755 = (fs1, none))
     (hs : e.isSymlink = true) (hrel : pathRel dst path = some ln)
     (hv : validSymlink cwd allow dst ln e.link = false) :
-    unpack cwd allow priv dst .none fs (e :: rest) = (fs1, .illegal) := by
-  have h := C04_reject cwd allow priv dst { fs := fs, dirs := [] } e e.body false path ln fs1 hn hi hm hs hrel hv
-  unfold unpack
-  rw [unpackLoop]
-  · simp [h]
-  · intro k n h; cases h
+    unpack cwd allow priv dst .none fs (e :: rest) = (fs1, .illegal) :=
+  C04_reject_unpack_linkOK cwd allow priv dst fs e rest path ln fs1 hn hi hm hs hrel
+    (C04_linkOK_false_of_validSymlink_false hv)
 
 /-- **C04_accepted_is_lexically_inside.** What acceptance means: with an absolute clean root, a
 relative link name and no allow-list, the lexical join of the link's directory and the target (the
@@ -142,6 +184,165 @@ theorem C04_accepted_lexInside (cwd dst path ln t : Str) (hdst : DstOK dst)
     (hrel : pathRel dst path = some ln) (h : validSymlink cwd [] dst ln t = true) :
     pathSegs dst <+: cleanSegs true ((if isAbs t then [] else (pathSegs path).dropLast) ++ pathSegs t) :=
   validSymlink_lexInside hdst hp hpre hrel h
+
+/-- **C04_unpack_accepted_lexInside.** The same for what `Unpack` itself accepts (no allow-list): the
+target is relative, and its lexical resolution from the directory of the extraction path has the
+components of `dst` as a prefix. -/
+theorem C04_unpack_accepted_lexInside (cwd dst path ln t : Str) (hdst : DstOK dst)
+    (hp : isAbs path = true ∧ pathClean path = path) (hpre : pathSegs dst <+: pathSegs path)
+    (hrel : pathRel dst path = some ln) (h : unpackLinkOK cwd [] dst ln t = true) :
+    isAbs t = false ∧ pathSegs dst <+: cleanSegs true ((pathSegs path).dropLast ++ pathSegs t) := by
+  have ha := unpackLinkOK_nil_rel h
+  have := C04_accepted_lexInside cwd dst path ln t hdst hp hpre hrel (unpackLinkOK_valid h)
+  rw [ha] at this
+  exact ⟨ha, by simpa using this⟩
+
+/-! ## 3b. absolute targets (former finding F12, repaired)
+
+`Unpack` refuses a link entry whose target is absolute unless the caller allow-listed the target;
+pointing inside `dst` is no longer enough.  All statements are about *named* entries: an entry with
+an empty name is skipped by `Unpack` before anything is looked at (`C04_unnamed_skipped`). -/
+
+/-- an entry with an empty name is skipped: nothing changes, the loop continues -/
+theorem C04_unnamed_skipped (cwd : Str) (allow : List Str) (priv : Bool) (dst : Str) (st : UState)
+    (e : Entry) (body : Str) (be : Bool) (hn : e.name = []) :
+    unpackEntry cwd allow priv dst st e body be = (st, none) :=
+  unpackEntry_nil_name cwd allow priv dst st e body be hn
+
+/-- **C04_abs_target_needs_allow.** Any allow-list: if `Unpack` accepts a named symlink entry whose
+target is absolute, the (cleaned) target is an allow-listed one or lies below one. -/
+theorem C04_abs_target_needs_allow (cwd : Str) (allow : List Str) (priv : Bool) (dst : Str)
+    (st st' : UState) (e : Entry) (body : Str) (be : Bool)
+    (hn : e.name ≠ []) (hs : e.isSymlink = true) (ha : isAbs e.link = true)
+    (h : unpackEntry cwd allow priv dst st e body be = (st', none)) :
+    allowedTarget allow (pathAbs cwd dst) (pathClean e.link) = true := by
+  obtain ⟨ln, _, _, hv⟩ := unpackEntry_link_accepted cwd allow priv dst st st' e body be hn hs h
+  exact unpackLinkOK_abs_allowed hv ha
+
+/-- … and in any case what is accepted passed `validSymlink` and is relative or allow-listed -/
+theorem C04_accepted_link (cwd : Str) (allow : List Str) (priv : Bool) (dst : Str)
+    (st st' : UState) (e : Entry) (body : Str) (be : Bool)
+    (hn : e.name ≠ []) (hs : e.isSymlink = true)
+    (h : unpackEntry cwd allow priv dst st e body be = (st', none)) :
+    ∃ path ln, newUnpackInfo st.fs dst e = some path ∧ pathRel dst path = some ln ∧
+      validSymlink cwd allow dst ln e.link = true ∧
+      (isAbs e.link = false ∨ allowedTarget allow (pathAbs cwd dst) (pathClean e.link) = true) := by
+  obtain ⟨ln, hi, hr, hv⟩ := unpackEntry_link_accepted cwd allow priv dst st st' e body be hn hs h
+  exact ⟨_, ln, hi, hr, unpackLinkOK_valid hv, unpackLinkOK_rel_or_allowed hv⟩
+
+/-- **C04_accepted_target_relative.** No allow-list: the target of every named symlink entry that
+`Unpack` accepts is relative. -/
+theorem C04_accepted_target_relative (cwd : Str) (priv : Bool) (dst : Str)
+    (st st' : UState) (e : Entry) (body : Str) (be : Bool)
+    (hn : e.name ≠ []) (hs : e.isSymlink = true)
+    (h : unpackEntry cwd [] priv dst st e body be = (st', none)) :
+    isAbs e.link = false := by
+  obtain ⟨ln, _, _, hv⟩ := unpackEntry_link_accepted cwd [] priv dst st st' e body be hn hs h
+  exact unpackLinkOK_nil_rel hv
+
+/-- **C04_created_link_relative.** No allow-list: the only link a step of `Unpack` creates is the
+one `os.Symlink(e.link, path)` call of an accepted named symlink entry, and its target is relative. -/
+theorem C04_created_link_relative (cwd : Str) (priv : Bool) (dst : Str)
+    (st st' : UState) (e : Entry) (body : Str) (be : Bool)
+    (hn : e.name ≠ []) (hs : e.isSymlink = true)
+    (h : unpackEntry cwd [] priv dst st e body be = (st', none)) :
+    ∃ path fs1, newUnpackInfo st.fs dst e = some path ∧
+      st.fs.mkdirAll nowT (mkdirAllFuel (pathDir path)) (pathDir path) 0o755 = (fs1, none) ∧
+      fs1.symlink e.link path nowT = .ok st'.fs ∧ st'.dirs = st.dirs ∧ isAbs e.link = false := by
+  have hrelT := C04_accepted_target_relative cwd priv dst st st' e body be hn hs h
+  unfold unpackEntry at h
+  rw [if_neg hn] at h
+  split at h
+  · cases h
+  · rename_i path hi
+    simp only at h
+    split at h
+    · cases h
+    · rename_i fs1 hm
+      rw [if_pos hs] at h
+      split at h
+      · cases h
+      · split at h
+        · cases h
+        · split at h
+          · cases h
+          · rename_i fs2 hsl
+            cases h
+            exact ⟨path, fs1, hi, hm, hsl, rfl, hrelT⟩
+
+/-- **C04_abs_target_refused.** No allow-list: a named symlink entry whose target is absolute —
+wherever it points, inside `dst` or not — is an error of the step (never `none` = "continue"): an
+illegal-slug error, or the I/O error of the `MkdirAll` of the parent directory that comes first.
+When `NewUnpackInfo` and that `MkdirAll` succeed, the step is exactly: illegal slug, no link created
+(the filesystem is the one `MkdirAll` left). -/
+theorem C04_abs_target_refused (cwd : Str) (priv : Bool) (dst : Str) (st : UState) (e : Entry)
+    (body : Str) (be : Bool)
+    (hn : e.name ≠ []) (hs : e.isSymlink = true) (ha : isAbs e.link = true) :
+    ((unpackEntry cwd [] priv dst st e body be).2 = some .illegal ∨
+      (unpackEntry cwd [] priv dst st e body be).2 = some .ioerr) ∧
+    (newUnpackInfo st.fs dst e = none →
+      unpackEntry cwd [] priv dst st e body be = (st, some .illegal)) ∧
+    (∀ path fs1, newUnpackInfo st.fs dst e = some path →
+      st.fs.mkdirAll nowT (mkdirAllFuel (pathDir path)) (pathDir path) 0o755 = (fs1, none) →
+      unpackEntry cwd [] priv dst st e body be = ({ fs := fs1, dirs := st.dirs }, some .illegal)) := by
+  refine ⟨?_, ?_, ?_⟩
+  · exact unpackEntry_link_refused cwd [] priv dst st e body be hn hs
+      (fun ln _ => unpackLinkOK_nil_abs cwd dst ln ha)
+  · exact fun hi => unpackEntry_info_none cwd [] priv dst st e body be hn hi
+  · intro path fs1 hi hm
+    cases hrel : pathRel dst path with
+    | none => unfold unpackEntry; simp [hn, hi, hm, hs, hrel]
+    | some ln =>
+      exact C04_reject_linkOK cwd [] priv dst st e body be path ln fs1 hn hi hm hs hrel
+        (unpackLinkOK_nil_abs cwd dst ln ha)
+
+/-- the general form: with an allow-list that does not cover the (cleaned) absolute target, the
+step is an error too -/
+theorem C04_abs_target_refused_allow (cwd : Str) (allow : List Str) (priv : Bool) (dst : Str) (st : UState)
+    (e : Entry) (body : Str) (be : Bool)
+    (hn : e.name ≠ []) (hs : e.isSymlink = true) (ha : isAbs e.link = true)
+    (hal : allowedTarget allow (pathAbs cwd dst) (pathClean e.link) = false) :
+    (unpackEntry cwd allow priv dst st e body be).2 = some .illegal ∨
+      (unpackEntry cwd allow priv dst st e body be).2 = some .ioerr := by
+  apply unpackEntry_link_refused cwd allow priv dst st e body be hn hs
+  intro ln _
+  cases h : unpackLinkOK cwd allow dst ln e.link with
+  | false => rfl
+  | true => rw [unpackLinkOK_abs_allowed h ha] at hal; cases hal
+
+/-- **C04_unpack_ok_links_relative.** No allow-list, any reader fault: if `Unpack` returns success,
+every named symlink entry of the archive has a relative target. -/
+theorem C04_unpack_ok_links_relative (cwd : Str) (priv : Bool) (dst : Str) (fault : Fault) (fs : FS)
+    (es : List Entry) (h : (unpack cwd [] priv dst fault fs es).2 = .ok) :
+    ∀ e ∈ es, e.name ≠ [] → e.isSymlink = true → isAbs e.link = false := by
+  have h' : unpack cwd [] priv dst fault fs es = ((unpack cwd [] priv dst fault fs es).1, .ok) := by
+    rw [← h]
+  obtain ⟨st, hl, _⟩ := (unpack_ok_iff cwd [] priv dst fault fs _ es).1 h'
+  intro e he hn hs
+  obtain ⟨ln, _, hv⟩ := unpackLoop_none_links cwd [] priv dst fault 0 _ st es hl e he hn hs
+  exact unpackLinkOK_nil_rel hv
+
+/-- contrapositive: an archive with a named symlink entry whose target is absolute is never unpacked
+successfully without an allow-list -/
+theorem C04_unpack_abs_target_fails (cwd : Str) (priv : Bool) (dst : Str) (fault : Fault) (fs : FS)
+    (es : List Entry) (e : Entry) (he : e ∈ es) (hn : e.name ≠ []) (hs : e.isSymlink = true)
+    (ha : isAbs e.link = true) : (unpack cwd [] priv dst fault fs es).2 ≠ .ok := by
+  intro h
+  rw [C04_unpack_ok_links_relative cwd priv dst fault fs es h e he hn hs] at ha
+  cases ha
+
+/-- the general form with an allow-list: after a successful `Unpack` every named symlink entry's
+target passed the link test — relative, or allow-listed -/
+theorem C04_unpack_ok_links_allowed (cwd : Str) (allow : List Str) (priv : Bool) (dst : Str) (fault : Fault)
+    (fs : FS) (es : List Entry) (h : (unpack cwd allow priv dst fault fs es).2 = .ok) :
+    ∀ e ∈ es, e.name ≠ [] → e.isSymlink = true →
+      isAbs e.link = false ∨ allowedTarget allow (pathAbs cwd dst) (pathClean e.link) = true := by
+  have h' : unpack cwd allow priv dst fault fs es = ((unpack cwd allow priv dst fault fs es).1, .ok) := by
+    rw [← h]
+  obtain ⟨st, hl, _⟩ := (unpack_ok_iff cwd allow priv dst fault fs _ es).1 h'
+  intro e he hn hs
+  obtain ⟨ln, _, hv⟩ := unpackLoop_none_links cwd allow priv dst fault 0 _ st es hl e he hn hs
+  exact unpackLinkOK_rel_or_allowed hv
 
 /-! ## 4. non-vacuity -/
 
@@ -171,6 +372,44 @@ example : ¬ Tidy "d/l1/..".toList ∧ ¬ Tidy "s/../out.txt".toList ∧ Tidy ".
 /-- `C04_reject` is not vacuous: a link `l -> ../x` in the empty destination is refused -/
 example : unpack cexCwd [] true cexDst .none cexFs0 [cexLink "l" "../x"] = (cexFs0, .illegal) := by
   decide
+
+/-- §3b is not vacuous.  (a) the archive `d/`, `d/a`, `l -> /t/dst/d/a` (absolute, inside `dst`: what
+finding F12 was about — `validSymlink` alone accepts it) is refused with an illegal-slug error and
+no link is left; -/
+example : validSymlink cexCwd [] cexDst "l".toList "/t/dst/d/a".toList = true ∧
+    unpackLinkOK cexCwd [] cexDst "l".toList "/t/dst/d/a".toList = false ∧
+    (unpack cexCwd [] true cexDst .none cexFs0
+      [cexDir "d" 0o755 5, cexReg "d/a" "hi" 0o644 7, cexLink "l" "/t/dst/d/a"]).2 = .illegal ∧
+    (unpack cexCwd [] true cexDst .none cexFs0
+      [cexDir "d" 0o755 5, cexReg "d/a" "hi" 0o644 7, cexLink "l" "/t/dst/d/a"]).1.get
+        (["t","dst","l"].map String.toList) = none := by decide
+
+/-- the single-entry archive `l -> /t/dst/a` is refused the same way, nothing is created -/
+example : unpack cexCwd [] true cexDst .none cexFs0 [cexLink "l" "/t/dst/a"] = (cexFs0, .illegal) := by
+  decide
+
+/-- (b) the same archives with the target allow-listed (as an absolute prefix, or relative to the
+destination) are accepted, and the link is created with the absolute target; -/
+example : (unpack cexCwd ["/t/dst/a".toList] true cexDst .none cexFs0 [cexLink "l" "/t/dst/a"]).2 = .ok ∧
+    (unpack cexCwd ["/t/dst/a".toList] true cexDst .none cexFs0 [cexLink "l" "/t/dst/a"]).1.get
+      (["t","dst","l"].map String.toList) = some (.link "/t/dst/a".toList) ∧
+    (unpack cexCwd ["d".toList] true cexDst .none cexFs0
+      [cexDir "d" 0o755 5, cexReg "d/a" "hi" 0o644 7, cexLink "l" "/t/dst/d/a"]).2 = .ok ∧
+    allowedTarget ["d".toList] (pathAbs cexCwd cexDst) (pathClean "/t/dst/d/a".toList) = true := by decide
+
+/-- an allow-list that does not cover the target does not help -/
+example : (unpack cexCwd ["/t/dst/b".toList] true cexDst .none cexFs0 [cexLink "l" "/t/dst/a"]).2
+    = .illegal := by decide
+
+/-- (c) a relative link to the same place is accepted without allow-list -/
+example : (unpack cexCwd [] true cexDst .none cexFs0 [cexLink "l" "a"]).2 = .ok ∧
+    (unpack cexCwd [] true cexDst .none cexFs0 [cexLink "l" "a"]).1.get
+      (["t","dst","l"].map String.toList) = some (.link "a".toList) ∧
+    unpackLinkOK cexCwd [] cexDst "l".toList "a".toList = true := by decide
+
+/-- the hypotheses of `C04_abs_target_refused` on the entry of (a) -/
+example : (cexLink "l" "/t/dst/a").name ≠ [] ∧ (cexLink "l" "/t/dst/a").isSymlink = true ∧
+    isAbs (cexLink "l" "/t/dst/a").link = true := by decide
 
 /-! ## 5. the hypothesis `TidyLinks` is needed (known finding F3) -/
 
